@@ -143,6 +143,16 @@ class Interp:
             self.frames.pop()
             self.depth -= 1
             self.pc = save_pc
+        if frame.yields is not None:
+            e = None
+            for y in frame.yields:
+                e = y if e is None else join(e, y)
+            heap = None
+            for _v, h in frame.rets:
+                heap = h if heap is None else join_heap(heap, h)
+            if heap is not None:
+                st.heap = heap
+            return SeqV(e, None, taint_of(e) if e is not None else frozenset())
         if not frame.rets:
             raise PathEnd()
         val, heap = None, None
@@ -256,7 +266,7 @@ class Interp:
     # statements and expressions are in separate mixins to keep files small
     from .interp_expr import (eval, truth, e_Constant, e_Name, e_Attribute, e_Call, e_BinOp, e_UnaryOp, e_Compare,
                               e_BoolOp, e_IfExp, e_Subscript, e_Tuple, e_List, e_Dict, e_ListComp, e_GeneratorExp,
-                              e_JoinedStr, e_Lambda, e_Slice, e_Set, e_Starred, lookup, index_value, binop,
+                              e_JoinedStr, e_Lambda, e_Slice, e_Set, e_Starred, e_Yield, lookup, index_value, binop,
                               compare_vals, comprehension)
     from .interp_stmt import (exec_block, exec_stmt, bind, store_subscript, iter_elem, s_If, s_For, s_While,
                               s_Try, loop_fix)
